@@ -717,9 +717,11 @@ def _emit_family(draw, S, fam, allow_set_broadcast=True, allow_ndim_dot=False, a
     if fam == 'pow':
         r = draw(st.sampled_from([2, 3, 0, 1] if poly else [2, 3, -1, -2, -3, 0.5, 1.5, -0.5, 2.0, 0, 1, 4]))
         a = None
-        if isinstance(r, int) and r >= 2 and draw(st.booleans()):
-            # x**n at a base point that is exactly zero (the kernels special-case it)
+        if draw(st.integers(0, 2)) == 0:
+            # x**n, n a positive Python int, at a base point that is exactly zero (the kernels special-case it)
             a = _pick(draw, S, lambda q: real(q) and any(np.any(np.asarray(S.regs[k][q]) == 0) for k in range(1, S.K)))
+            if a is not None:
+                r = draw(st.sampled_from([3, 2, 4, 3] if not poly else [3, 2]))
         if a is None:
             a = _pick(draw, S, lambda q: real(q) and all(precond(['pow', q, r], S.regs[k]) for k in range(S.K)))
         if a is None:
